@@ -1187,7 +1187,7 @@ class DomainMapping(CanBehaveLikeAVariable[T], ABC):
             yield sources
             return
         is_condition = self._is_a_condition_
-        child_val = self._child_._evaluate__(sources, yield_when_false=self._yield_when_false_)
+        child_val = self._child_._evaluate__(sources, yield_when_false=yield_when_false)
         for child_v in child_val:
             for v in self._apply_mapping_(child_v[self._child_._id_]):
                 values = copy(child_v)
@@ -1198,7 +1198,9 @@ class DomainMapping(CanBehaveLikeAVariable[T], ABC):
                     self._is_false_ = False
                 else:
                     self._is_false_ = True
-                if self._yield_when_false_ or not self._is_false_:
+                # (the mode of THIS evaluation: the same expression may be read again, already bound, while this one is suspended -
+                # e.g. when it is selected as well - and that call sets the attribute to its own mode)
+                if yield_when_false or not self._is_false_:
                     values[self._id_] = v
                     yield values
 
